@@ -105,7 +105,12 @@ class Run:
             chunk = max(1, min(256, len(cases) // (common.NPROC * 8) or 1))
         results = common.pmap(fn, cases, chunk, isolate=isolate)
         # determinism self-test: the first cases are executed a second time, from this process
-        for c, r in list(zip(cases, results))[:selftest]:
+        # (isolated sweeps: only the first case of a chunk ran in a process without a past, so only those are compared
+        # with a fresh execution; a result that differs because of the cases before it is not a harness matter - if it
+        # violates the oracle it is reported with its history)
+        step = chunk if isolate else 1
+        for n in list(range(0, len(cases), step))[:selftest]:
+            c, r = cases[n], results[n]
             r2 = common.in_fork(fn, c) if isolate else fn(c)
             if (r.get("obs"), r.get("viol")) != (r2.get("obs"), r2.get("viol")):
                 raise HarnessFault(f"non-deterministic observation for case {json.dumps(c)[:400]}")
@@ -134,7 +139,7 @@ class Run:
             bchunk = max(1, min(32, len(frontier) // (common.NPROC * 4) or 1))
             results = common.pmap(expand, frontier, bchunk, isolate=True)
             if depth == 0 and frontier:
-                again = expand(frontier[0])
+                again = common.in_fork(expand, frontier[0])
                 if [(r.get("obs"), r.get("viol")) for r in again] != [(r.get("obs"), r.get("viol")) for r in results[0]]:
                     raise HarnessFault("non-deterministic expansion of the initial state")
             for fn_, (hist, succ) in enumerate(zip(frontier, results)):
